@@ -12,6 +12,7 @@ def run(F, G, tier, seed):
     effects.run_lvshape(chk, F, G, parts=("modifiable",))
     effects.run_dupname(chk, F)
     effects.run_fieldgate(chk, F)
+    effects.run_conststicky(chk, F)
     rid = "R-GATE[C12]"
     chk.rule(rid, "visitInstance: a non-const reference template parameter needs a unique-reference argument")
     effects.run_c13_instance(chk, F, rid)
